@@ -38,11 +38,7 @@ def _ratio(t):
 
 
 def run(ctx):
-    W = Program(tag='witness18-' + ctx.P.std.replace('+', 'p'), std=ctx.P.std,
-                sources=[CONTROLS + '/seconds_instantiate.cc'], prefixes=(ctx.P.repo + '/', CONTROLS + '/'), repo=ctx.P.repo)
-    GW = CallGraph(W)
-    wctx = core.Ctx(ctx.prop, ctx.tier, W, GW, config=ctx.config)
-    wctx.obligations = ctx.obligations          # obligations are recorded on the property's context
+    wctx, GW = witness(ctx)
     splits = [k for k in GW.defs if k[0] == 'cctz::detail::split_seconds']
     joins = [k for k in GW.defs if k[0] == 'cctz::detail::join_seconds']
     if len(splits) < 5 or len(joins) < 5:
@@ -170,49 +166,8 @@ def run(ctx):
     ctx.minimum('C18-floor', 6)
     ctx.minimum('C18-narrow', 4)
 
-    # ---- C18-route
-    n_route = 0
-    for k in sorted(GW.defs):
-        u, f = GW.defs[k]
-        nm = k[0]
-        targs = k[1]
-        if nm in ('cctz::time_zone::lookup', 'cctz::convert', 'cctz::format', 'cctz::time_zone::next_transition',
-                  'cctz::time_zone::prev_transition') and targs and 'time_point<' in ''.join(targs) and \
-                not any(a.startswith('consttime_point<seconds>') or a == 'consttime_point<seconds>&' for a in targs) and \
-                f.get('_p', {}).get('kind') == 'FunctionTemplateDecl' or (nm in ('cctz::time_zone::lookup', 'cctz::convert', 'cctz::format') and
-                                                                           _is_template_inst(f)):
-            callx = [x for x in walk(f) if x.get('kind') in ('CallExpr', 'CXXMemberCallExpr') and callee(x)]
-            calls = [callee(x)[1].get('name') if callee(x)[0] == 'fn' else callee(x)[1] for x in callx]
-            casts = []
-            for x in callx:
-                if callee(x)[0] != 'fn' or callee(x)[1].get('name') not in ('time_point_cast', 'duration_cast', 'floor', 'ceil', 'round'):
-                    continue
-                r_ = _ratio(u.expand_type(dtype(x) or qtype(x)).replace(' ', ''))
-                if r_ is None or r_[1] == 1:
-                    casts.append(callee(x)[1].get('name'))      # a conversion to whole seconds or coarser
-            n_route += 1
-            via = 'split_seconds' in calls or (nm == 'cctz::convert' and 'lookup' in calls)
-            ctx.check(via and not casts, 'C18-route', '%s(%s) takes its second from split_seconds' % (nm.split('::')[-1], ','.join(targs)[:60]), f,
-                      'a templated entry point converts the time point to seconds itself (%s) instead of through split_seconds: '
-                      'the floor correction is bypassed' % (casts or 'no split_seconds call'), construct='route:%s' % nm.split('::')[-1])
-        if nm == 'cctz::parse' and _is_template_inst(f):
-            calls = [callee(x)[1].get('name') for x in walk(f) if x.get('kind') == 'CallExpr' and callee(x) and callee(x)[0] == 'fn']
-            F = wctx.facts(f)
-            g = wctx.cfg(f)
-            ok = 'join_seconds' in calls
-            for rn in g.returns:
-                cases = F.return_cases(rn)
-                # true only when both the text parse and join_seconds said true
-                for (fs, val) in cases:
-                    if val is True and not any(op == '!=' and 'join_seconds(' in a + b and 'n:0' in (a, b) for (op, a, b) in fs):
-                        ok = False
-            n_route += 1
-            ctx.check(ok, 'C18-route', 'parse(%s) succeeds only if join_seconds accepts the result' % ','.join(targs)[-50:], f,
-                      'parse<D> can return true without join_seconds having accepted the parsed instant: a count that does not fit the '
-                      'target representation is not reported as a failure', construct='route:parse')
-    if n_route < 4:
-        raise AnalysisBroken('C18-route: templated entry points not instantiated in the witness (%d)' % n_route)
-    ctx.minimum('C18-route', 4)
+    check_route(ctx, wctx, GW, 'C18-route')
+    ctx.minimum('C18-route', 12)
 
     # ---- C18-trunc (library unit: format())
     from ..symval import SymVal, render, lin_str
@@ -331,3 +286,63 @@ def _floor_guard(wctx, f, F, g, dec, divs, ck, modk, num):
 def _is_template_inst(f):
     p = f.get('_p') or {}
     return p.get('kind') == 'FunctionTemplateDecl'
+
+
+ENTRY_ALL = ('lookup', 'convert', 'format', 'next_transition', 'prev_transition', 'parse')
+
+
+def witness(ctx):
+    W = Program(tag='witness18-' + ctx.P.std.replace('+', 'p'), std=ctx.P.std,
+                sources=[CONTROLS + '/seconds_instantiate.cc'], prefixes=(ctx.P.repo + '/', CONTROLS + '/'), repo=ctx.P.repo)
+    GW = CallGraph(W)
+    wctx = core.Ctx(ctx.prop, ctx.tier, W, GW, config=ctx.config)
+    wctx.obligations = ctx.obligations          # obligations are recorded on the property's context
+    return wctx, GW
+
+
+def check_route(ctx, wctx, GW, rule, only=ENTRY_ALL, min_n=4):
+    """Templated entry points take their whole second from split_seconds (never from a cast of their own)."""
+    n_route = 0
+    for k in sorted(GW.defs):
+        u, f = GW.defs[k]
+        nm = k[0]
+        targs = k[1]
+        if nm.split('::')[-1] not in only:
+            continue
+        if nm in ('cctz::time_zone::lookup', 'cctz::convert', 'cctz::format', 'cctz::time_zone::next_transition',
+                  'cctz::time_zone::prev_transition') and targs and 'time_point<' in ''.join(targs) and \
+                not any(a.startswith('consttime_point<seconds>') or a == 'consttime_point<seconds>&' for a in targs) and \
+                f.get('_p', {}).get('kind') == 'FunctionTemplateDecl' or (nm in ('cctz::time_zone::lookup', 'cctz::convert', 'cctz::format') and
+                                                                           _is_template_inst(f)):
+            callx = [x for x in walk(f) if x.get('kind') in ('CallExpr', 'CXXMemberCallExpr') and callee(x)]
+            calls = [callee(x)[1].get('name') if callee(x)[0] == 'fn' else callee(x)[1] for x in callx]
+            casts = []
+            for x in callx:
+                if callee(x)[0] != 'fn' or callee(x)[1].get('name') not in ('time_point_cast', 'duration_cast', 'floor', 'ceil', 'round'):
+                    continue
+                r_ = _ratio(u.expand_type(dtype(x) or qtype(x)).replace(' ', ''))
+                if r_ is None or r_[1] == 1:
+                    casts.append(callee(x)[1].get('name'))      # a conversion to whole seconds or coarser
+            n_route += 1
+            via = 'split_seconds' in calls or (nm == 'cctz::convert' and 'lookup' in calls)
+            ctx.check(via and not casts, rule, '%s(%s) takes its second from split_seconds' % (nm.split('::')[-1], ','.join(targs)[:60]), f,
+                      'a templated entry point converts the time point to seconds itself (%s) instead of through split_seconds: '
+                      'the floor correction is bypassed' % (casts or 'no split_seconds call'), construct='route:%s' % nm.split('::')[-1])
+        if nm == 'cctz::parse' and _is_template_inst(f):
+            calls = [callee(x)[1].get('name') for x in walk(f) if x.get('kind') == 'CallExpr' and callee(x) and callee(x)[0] == 'fn']
+            F = wctx.facts(f)
+            g = wctx.cfg(f)
+            ok = 'join_seconds' in calls
+            for rn in g.returns:
+                cases = F.return_cases(rn)
+                # true only when both the text parse and join_seconds said true
+                for (fs, val) in cases:
+                    if val is True and not any(op == '!=' and 'join_seconds(' in a + b and 'n:0' in (a, b) for (op, a, b) in fs):
+                        ok = False
+            n_route += 1
+            ctx.check(ok, rule, 'parse(%s) succeeds only if join_seconds accepts the result' % ','.join(targs)[-50:], f,
+                      'parse<D> can return true without join_seconds having accepted the parsed instant: a count that does not fit the '
+                      'target representation is not reported as a failure', construct='route:parse')
+    if n_route < min_n:
+        raise AnalysisBroken('%s:' % rule + ' templated entry points not instantiated in the witness (%d)' % n_route)
+    return n_route
